@@ -26,6 +26,9 @@ pub(crate) enum Act {
 }
 
 pub(crate) struct Ghost {
+    /// callback actions are consulted only when a harness armed them (keeps symbolic execution of the
+    /// probe callbacks trivial on infeasible paths where the payload bytes are arbitrary)
+    pub actions_on: bool,
     pub trace_calls: [u16; MAX_OBJ],
     pub finalize_calls: [u16; MAX_OBJ],
     pub drop_calls: [u16; MAX_OBJ],
@@ -83,6 +86,7 @@ pub(crate) static mut G: Ghost = Ghost::new();
 impl Ghost {
     pub(crate) const fn new() -> Ghost {
         Ghost {
+            actions_on: false,
             trace_calls: [0; MAX_OBJ],
             finalize_calls: [0; MAX_OBJ],
             drop_calls: [0; MAX_OBJ],
